@@ -824,6 +824,9 @@ def run(ctx, out, tier):
         _detect_once(ctx, out, _dv, rule="C02.detect")
     else:
         out.inst("C02.detect", 0, 4)
+    shared.check_scan_state(ctx, out, "C02.scanstate")
+    # a violation found in a touched block survives the merge of the validators' results (append-only)
+    shared.sh_merge(ctx, out, ctx.reachable_bodies())
     return meta()
 
 
